@@ -114,7 +114,7 @@ def in_finding_class(s):
     texts, unclosed, reasons = _expected(s)
     if unclosed or 'fence-in-brackets' in reasons:      # #24; the fence-inside-brackets ValueError
         return True
-    norm = [re.sub(r'\s+', '', t) for t in texts]
+    norm = [re.sub(r'\s+', '', t) for t in texts if not t.startswith('`')]     # verbatim blocks are never merged
     if len(set(norm)) < len(norm):
         return True
     for t in texts:
